@@ -15,6 +15,14 @@ def main():
     ctx = Ctx('C08', 'exploration', variants=('plain',))
     b = ctx.b; rng = ctx.rng
     progs, disc = progset.pool(b, ctx, ctx.q(12, 120), ctx.q(10, 150), ctx.q(14, 260), 'C08')
+    # programs with errors: the diagnostics are compiler output too (added after the second C08 seeded change, which ordered
+    # rejected meanings by heap address, and the baseline defect found with it: a diagnostic that depended on uninitialised memory)
+    FHEAD = '#include "aldor"\n#include "aldorio"\nimport from MachineInteger, Integer, String, SingleFloat, DoubleFloat, List MachineInteger, Array MachineInteger, Set MachineInteger, PrimitiveArray MachineInteger;\nf(n: MachineInteger): MachineInteger == n + 1;\n'
+    FAULTY = ['stdout << max(1, 2, 3, 4, 5) << newline;', 'stdout << new(1, 2, 3, 4, 5) << newline;', 'x: MachineInteger := "s";', 'stdout << f("abc") << newline;',
+              'import from ZqNoSuchDomain;', 'stdout << (1 +) << newline;', 'zqundef(3);', 'stdout << empty?(1, 2) << newline;', 'stdout << f(1, 2) + coerce(3, 4) << newline;',
+              'stdout << max(1, 2, 3) << new(1, 2, 3) << min("a", 2.0, 3) << newline;']
+    for k, fl in enumerate(FAULTY):
+        progs.append({'name': 'faulty:%d' % k, 'lib': 'aldor', 'text': FHEAD + fl + '\nstdout << f(2) << newline;\n', 'inc': None, 'expected': None, 'g': None, 'faulty': True})
     base = ctx.tmp('w')
     def compile_(d, pr, env=None, noaslr=False, extra=(), srcname='x.as', cwd=None, srcarg=None, timeout=300):
         progset.place(d, pr, srcname)
@@ -32,7 +40,7 @@ def main():
         glog = os.path.join(d0, 'gc.log')
         p0, o0 = compile_(d0, pr, env={'ALDOR_VERIF_GC_LOG': glog})
         res = []
-        if p0.rc != 0 or p0.timeout or any(v is None for v in o0.values()):
+        if p0.timeout or ((p0.rc != 0 or any(v is None for v in o0.values())) and not pr.get('faulty')):
             shutil.rmtree(d0, ignore_errors=True); return j, None, res, 0
         nalloc = 0
         try: nalloc = int(re.search(r'allocs=(\d+)', open(glog).read()).group(1))
